@@ -10,7 +10,7 @@
    [rvl k V] is the revision held for key k.  Views are compared by revision: the code swallows an event whose
    revision equals the cached one, so contents agree exactly when a revision identifies the content of a key. *)
 From Coq Require Import List NArith Arith Bool.
-From Verif.C26 Require Import Model Spec Proofs Steps Syncer Shape Main Content Tidy Oracle Revs.
+From Verif.C26 Require Import Model Spec Proofs Steps Syncer Shape Main Content Tidy Oracle Revs Reqs.
 Import ListNotations.
 
 (* Convergence: after ANY sequence of list results, list errors, watch-creation outcomes, watch events, watch errors,
@@ -209,6 +209,44 @@ Theorem c26_bookmark_then_rewatch : forall ord g c t r t' c1 rs1 c2 rs2,
   rs1 = [] /\ req_of c2 = (if N.eqb r 0 then (PList, 0%N) else (PWatch, r)).
 Proof. exact bookmark_then_rewatch. Qed.
 Print Assumptions c26_bookmark_then_rewatch.
+
+(* MaxErrorsPerRevision = 5.  Fewer consecutive generic watch error events: the watch is re-created from the same
+   revision and nothing is sent; the fifth clears the revision (full List from "0"); the fifth consecutive generic
+   failure to CREATE the watch makes the cache List again at the cached revision. *)
+Theorem c26_early_watch_error_rewatches : forall ord g c t c' rs,
+  ph c = PEvents -> errs c < 4 -> N.eqb (rev c) 0 = false ->
+  cache_step ord g c t (REvent EvErrOther) = Some (c', rs) -> req_of c' = (PWatch, rev c) /\ rs = [].
+Proof. exact early_watch_error_event_rewatches. Qed.
+Print Assumptions c26_early_watch_error_rewatches.
+
+Theorem c26_fifth_watch_error_resyncs : forall ord g c t c' rs,
+  ph c = PEvents -> errs c = 4 -> cache_step ord g c t (REvent EvErrOther) = Some (c', rs) -> req_of c' = (PList, 0%N).
+Proof. exact fifth_watch_error_event_resyncs. Qed.
+Print Assumptions c26_fifth_watch_error_resyncs.
+
+Theorem c26_fifth_watch_create_error_relists : forall ord g c t c' rs,
+  ph c = PWatch -> errs c = 4 -> cache_step ord g c t (RWatchErr WOther) = Some (c', rs) -> req_of c' = (PList, rev c).
+Proof. exact fifth_watch_create_error_relists. Qed.
+Print Assumptions c26_fifth_watch_create_error_relists.
+
+(* A List that fails (not an expiry) after the retry timeout: the error is signalled, the cache goes back to
+   WaitForDatastore and Lists again; a SendDeletesOnConnFail type has deleted and forgotten everything and Lists from "0". *)
+Theorem c26_list_failure_after_timeout : forall ord, ord_ok ord -> forall g c t c' rs,
+  ph c = PList -> pfr c = true -> stale c || t = true ->
+  cache_step ord g c t (RListErr LOther) = Some (c', rs) ->
+  In ResBackendErr rs /\ status c' = Wait /\ req_of c' = (PList, if sd g then 0%N else rev c) /\ (sd g = true -> res c' = []).
+Proof. exact list_failure_after_timeout. Qed.
+Print Assumptions c26_list_failure_after_timeout.
+
+(* MODEL MEETS SPEC, revision clause.  The oracle also judges the REQUESTS of the real caches ([ok_reqs]: a Watch is
+   created from exactly the last revision the datastore reported for that resource type - a completed List's revision,
+   the last event's or bookmark's - and never from "0"; a List is revision-less or at that revision).  Every scripted
+   run of the model satisfies it, for every map order. *)
+Theorem c26_model_requests_meet_spec : forall ord gs steps s' mo,
+  syncer_run_obs ord gs (fst (syncer_init gs)) steps = Some (s', mo) ->
+  ok_reqs (map (fun _ => 0%N) gs) steps (map snd mo) = true.
+Proof. exact model_requests_meet_spec. Qed.
+Print Assumptions c26_model_requests_meet_spec.
 
 (* The run evaluated by check_case (with the requests observed) is the scripted run the theorems are about. *)
 Theorem c26_observed_runs_are_scripted_runs : forall ord gs steps s s' mo,
